@@ -15,7 +15,9 @@ for sid in sorted(os.listdir('/verif/seeded')):
     rc = m.get('recheck', {})
     first = v.get('verdict')
     groups = rc.get('violation_groups', v.get('violation_groups'))
-    if first == 'CAUGHT':
+    if first == 'CAUGHT' and ('pre:' + sid) in NOTES:
+        verdict = f"caught ({v.get('violation_groups')} groups) - by a strengthening made from the sub-agent's report BEFORE the first run: {NOTES['pre:' + sid]}"
+    elif first == 'CAUGHT':
         verdict = f"caught ({v.get('violation_groups')} groups)"
     else:
         verdict = f"**missed at first**, caught ({groups} groups) after: {NOTES.get(sid, '?')}"
